@@ -177,8 +177,13 @@ func runC15(r *Run) {
 			inbound = append(inbound, burst)
 		}
 	}
+	idleGaps := make([]time.Duration, 4)
+	for i := range idleGaps {
+		idleGaps[i] = []time.Duration{0, 0, 0, 5500 * time.Millisecond, 20 * time.Second}[t.Draw(5)]
+	}
 	shuffleSeed := t.U32()
 	withhold := t.Draw(7)
+	peerWrDone := false
 	r.S.Go("peer-wr", func() {
 		if unsolicited {
 			// guesses of the library's ping payloads, before any ping was sent
@@ -186,10 +191,17 @@ func runC15(r *Run) {
 				sendPong([]byte(p))
 			}
 		}
-		for _, burst := range inbound {
+		for i, burst := range inbound {
 			r.S.Park("a.peer-wr")
+			// the connection may have been idle (the reader waiting) for longer
+			// than any per-frame time limit of the library before the burst arrives
+			if g := idleGaps[i%len(idleGaps)]; g > 0 {
+				r.S.Sleep(g)
+				r.S.Count("probe.idle-before-burst")
+			}
 			peer.Send(burst...)
 		}
+		peerWrDone = true
 	})
 	peerDone := false
 	_ = peerDone
@@ -279,7 +291,7 @@ func runC15(r *Run) {
 					return false
 				}
 			}
-			return true
+			return peerWrDone
 		}, nil)
 		r.S.Sleep(3 * time.Second) // let inbound pings be answered
 		r.S.Park("a.finisher.close")
